@@ -1,0 +1,25 @@
+//go:build verif
+
+// Copyright JAMF Software, LLC
+
+package storage
+
+import (
+	"github.com/jamf/regatta/storage/logreader"
+	"github.com/lni/dragonboat/v4/raftio"
+	"go.uber.org/zap"
+)
+
+// VerifDeliverLogCompacted feeds one LogCompacted system event, as dragonboat reports it for
+// replica nodeID, through the engine's event listener and dispatcher to the given log cache and
+// returns once it has been handled. Verification hook, compiled only with the verif build tag.
+func VerifDeliverLogCompacted(cache *logreader.ShardCache, nodeID uint64, info raftio.EntryInfo) {
+	e := &events{
+		eventsCh: make(chan any, 1),
+		stopc:    make(chan struct{}),
+		engine:   &Engine{cfg: Config{NodeID: nodeID}, log: zap.NewNop().Sugar(), LogCache: cache},
+	}
+	e.LogCompacted(info)
+	close(e.eventsCh)
+	e.dispatchEvents()
+}
